@@ -85,7 +85,7 @@ class Corpus:
             self.sources[name] = src
             C.write_crate(name, src)
 
-    def build(self, max_rounds=4):
+    def build(self, max_rounds=6):
         """Build all crates; items that rustc rejects are dropped (and reported) and the build retried."""
         C.ensure_dirs()
         self.write()
@@ -131,7 +131,9 @@ class Corpus:
                 C.write_crate(name, src)
             if not progress:
                 break
-        raise C.Inconclusive("corpus does not build after dropping rejected items:\n" + p.stdout[-3000:])
+        exc = C.Inconclusive("corpus does not build after dropping rejected items:\n" + p.stdout[-3000:])
+        exc.derive_errors = derive_errors      # what was rejected so far is still worth reporting
+        raise exc
 
     def run(self, monitor, seed, tier, extra_args=(), timeout=3000):
         outdir = os.path.join(C.WORK, "events", self.family)
